@@ -15,10 +15,10 @@ P = {
          "Every single and double fault placement within the property's hypothesis over the exchange of small files is executed against the real daemons; the oracle demands receiver success, sender success, byte-identical destination and termination of both tasks within the bound. Exhaustive for the enumerated layers; larger files and triples are sampled; an adaptive random dropper that keeps every retransmission counter below its limit adds long recoveries with many losses and progress in between.",
          "Hypothesis region is strictly inside the property's (F < limit, delays < min timer/2, Ti >= Ta+Tn). Trusts the simulator's link and virtual clock.", "DESIGN.md §5 C02"),
  "C03": ("fault_enumeration", "sim", "runtime monitor: task-lifetime guard (hook H3) + virtual clock; blackout at every emission index, termination bound checked per transaction",
-         "For every cut point of the exchange (blackout of either/both directions at every emission index) x mode x closure x NAK procedure, every transaction task must end within the bound B after the last PDU delivered to it, no loop may spin at one virtual instant, and the daemons must afterwards serve a fresh transfer and a Report. Enumerated cut points are complete for the reference exchanges; configurations are a grid; user cancels, heavy random loss, Prompt requests at random points (including while the receiver waits for the ACK of Finished) and sequences of 1-4 user primitives (Cancel/Suspend/Resume/Prompt/Report) at either entity from every point of the exchange are sampled; a transaction is exempt from the bound only while the user holds it suspended.",
+         "For every cut point of the exchange (blackout of either/both directions at every emission index) x mode x closure x NAK procedure, every transaction task must end within the bound B after the last PDU delivered to it, no loop may spin at one virtual instant, and the daemons must afterwards serve a fresh transfer and a Report. Enumerated cut points are complete for the reference exchanges; configurations are a grid; user cancels, heavy random loss, Prompt requests at random points (including while the receiver waits for the ACK of Finished) and sequences of 1-4 user primitives (Cancel/Suspend/Resume/Prompt/Report) at either entity from every point of the exchange are sampled, as are late copies of every PDU kind delivered to either entity after its Fault/Finished/Abandon indication in every end state (with per-condition handlers); a transaction is exempt from the bound only while the user holds it suspended or after a fault whose configured handler is ignore/suspend was actually declared.",
          "Timeouts >= 1 s (zero-second timers are not a meaningful configuration). The bound B is generous by design; a hang never ends and is caught by the 3*B observation window.", "DESIGN.md §5 C03"),
  "C04": ("fault_enumeration", "sim", "runtime monitor over enumerated re-deliveries of every previously sent PDU (singles and pairs) into the window between the receiver's success indication and its end",
-         "After the receiver's first success indication, each previously emitted PDU (and each pair) is delivered again while ACK(Finished) is withheld; the oracle checks the destination bytes, a non-idempotent append marker (requests executed exactly once), absence of integrity faults, and that sender success implies an earlier receiver success. Exhaustive for files of <= 3 segments, in acknowledged mode and in unacknowledged mode with closure.",
+         "After the receiver's first success indication, each previously emitted PDU (and each pair) is delivered again while ACK(Finished) is withheld; the oracle checks the destination bytes, a non-idempotent append marker (requests executed exactly once), absence of integrity faults, and that sender success implies an earlier receiver success. Exhaustive for files of <= 3 segments, in acknowledged mode and in unacknowledged mode with closure; a second enumerated family loses every ACK(Finished) (optionally every Finished PDU) so that the receiver runs through its positive-ACK limit into the cancelled state, and re-delivers every first-pass PDU after that fault. The window stays open when the receiving task vanished without ACK(Finished), a declared fault or a user cancel.",
          "Only the still-open transaction is in scope (as the property says). Trusts the simulator.", "DESIGN.md §5 C04"),
  "C05": ("exploration", "pure", "differential monitor: decode(encode(x)) == x and encoded_len == bytes produced, over generated values with the discrete fields enumerated",
          "Millions of generated well-formed values of every public codec type, discrete fields (flags, id widths 1/2/4/8, conditions, directives, statuses) enumerated completely, the rest random with boundary values; each is encoded, decoded and compared, and announced lengths are compared with produced lengths. Coverage cells per type must be non-empty.",
@@ -27,7 +27,7 @@ P = {
          "Random, prefix-enumerated, truncated and single-byte-mutated inputs are fed to every public decoder; a panic, an allocation above the bound, or a non-canonical accept is a violation. Both arithmetic profiles are exercised; the thorough tier repeats a sample under Miri.",
          "Allocation bound: largest single request <= 128 KiB, peak <= 512 KiB per decode call. Inputs are sampled, not all byte strings.", "DESIGN.md §5 C06"),
  "C07": ("exploration", "sim", "runtime monitor at the sender's transport boundary: every emitted PDU compared byte-for-byte with the source file, tiling/allowance/obligation oracles; scripted (non-conforming) receiver",
-         "Every PDU a real sending daemon hands to the link is checked against the source file on disk (bytes at offset, length caps, in-order first-pass tiling, retransmissions only for requested bytes and every requested in-file byte answered, true metadata/EOF, header identifiers and length). NAK shapes (overlapping, unsorted, empty, beyond EOF, long) are injected before/during/after the first pass by a scripted receiver.",
+         "Every PDU a real sending daemon hands to the link is checked against the source file on disk (bytes at offset, length caps, in-order first-pass tiling, retransmissions only for requested bytes and every requested in-file byte answered, true metadata/EOF, header identifiers and length). NAK shapes (overlapping, unsorted, empty, beyond EOF, long) are injected before/during/after the first pass by a scripted receiver; in a quarter of the runs the sending user suspends and resumes in the middle of the first pass.",
          "NAK ranges beyond EOF are bounded to a few segments past the end. Trusts the simulator.", "DESIGN.md §5 C07"),
  "C08": ("exploration", "sim", "runtime monitor at the receiver's transport boundary with a scripted sender: every NAK compared with the harness's exact knowledge of delivered bytes; all loss subsets enumerated for small files",
          "The harness plays the sender and knows exactly what it delivered; every NAK PDU emitted by the real receiver is checked for well-formedness, scope, size limit, and (after EOF) exact coverage of the missing bytes per round; deferred/immediate timing rules are checked on virtual timestamps. All subsets of lost segments/metadata for files of up to 6 segments are enumerated; late duplicates after the end re-create the receive transaction, which is judged for the deferred-procedure rule under a default configuration that differs from the peer's.",
@@ -39,19 +39,19 @@ P = {
          "Cancel at sender or receiver at every index of the reference exchanges x modes x closure x single handshake losses x blackout; the oracle checks termination of the cancelling entity within its limits, termination and cancel condition at a reachable peer, that the destination name never exposes partial content, and that nothing is delivered after the receiver has reported the transaction cancelled (one recorded finding: the daemon re-creates a cancelled transaction from late PDUs).",
          "A cancel may legitimately lose the race against completion; the cancel-condition rule applies only to runs where the receiver never reported success.", "DESIGN.md §5 C10"),
  "C11": ("exploration", "sim", "runtime monitor over multi-daemon executions with many overlapping transactions, stray/replayed/hostile PDUs: per-transaction outcome, tagged content, id distinctness, daemon liveness probe",
-         "2-3 real daemons with up to tens of overlapping transfers in both directions and mixed modes under random loss, with injected stray PDUs and raw bytes, sequence numbers starting just below the wrap of their width, and a default configuration that differs from the per-entity one (a receive transaction started by a stray must show its source entity's timing) (virtual-time simulator), plus a real-time lane on a multi-thread runtime with a slow receiving filestore (back-pressure under real parallelism); each transaction must deliver its own tagged content and report its own outcome, Put ids must be distinct, and every daemon must still serve a fresh Put and Report at the end.",
+         "2-3 real daemons with up to tens of overlapping transfers in both directions and mixed modes under random loss, with injected stray PDUs and raw bytes, sequence numbers starting just below the wrap of their width, and a default configuration that differs from the per-entity one (a receive transaction started by a stray must show its source entity's timing) (virtual-time simulator), plus a real-time lane on a multi-thread runtime with a slow receiving filestore (back-pressure under real parallelism; runs during which the machine stalled are repeated, not judged); each transaction must deliver its own tagged content and report its own outcome, Put ids must be distinct, and every daemon must still serve a fresh Put and Report at the end.",
          "Schedules are sampled by seed, latency pattern and burst/paced mode.", "DESIGN.md §5 C11"),
  "C12": ("exploration", "fs", "runtime monitor in a chroot jail: native-path containment + full tree snapshot of the sentinel parent before/after every operation, names enumerated over the hostile alphabet",
          "Every name of up to 5 components over {a, ., .., empty, leading /, the root path, a sibling extending the root's name} is fed to every filestore operation; the computed native path must stay inside the root and the sentinel tree outside the root must be unchanged (escaping reads are caught by unique sentinel contents).",
          "Lexical confinement as stated by the property; symlinks inside the root are not modelled. The engine runs chrooted so that an escape cannot damage the host.", "DESIGN.md §5 C12"),
  "C13": ("exploration", "fs+sim", "reference-model monitor of the filestore request semantics (status + full tree comparison after every request) and end-to-end monitor of request execution/reporting in simulated transactions",
-         "(a) all request sequences of length <= 3 over a small namespace plus long random sequences against an executable model of the CFDP request semantics; (b) every single request and every ordered pair of requests end to end, plus transactions carrying request lists under fault placements: executed iff delivery succeeded, once, in order, rest not-performed after the first failure, and the same responses at the receiving user, in the Finished PDU and at the sending user.",
+         "(a) all request sequences of length <= 3 over a small namespace plus long random sequences against an executable model of the CFDP request semantics; (b) every single request and every ordered pair of requests end to end, plus transactions carrying request lists under fault placements: executed iff delivery succeeded, once, in order, rest not-performed after the first failure, and the same responses at the receiving user, in every Finished PDU of the delivering transaction (whatever condition it carries: also the one sent after the positive-ACK limit or a cancel that follows the delivery) and at the sending user.",
          "Where the repository's own tests pin a reading of the spec, the model follows the pinned behaviour.", "DESIGN.md §5 C13"),
  "C14": ("exploration", "pure", "differential monitor: public checksum function against the CCSDS definition over all lengths 0..N and chunked/short-read readers; single-byte sensitivity",
          "Every length 0..4200 and lengths around the 8 KiB buffer, structured and random content, through Cursor, a real File and readers returning scripted short reads; result compared with the reference sum; every single-byte change must change the result.",
          "Reference implementation is 6 lines written from the CCSDS definition.", "DESIGN.md §5 C14"),
  "C15": ("fault_enumeration", "pure", "fault-injection monitor: every single-bit, every pair (window) and every burst <= 16 bit pattern applied to a corpus of encoded PDUs with CRC; decode must reject or return the original",
-         "All single flips, all pairs (whole PDU for short PDUs, sliding window otherwise) and all bursts up to 16 bits at every position after the 4 fixed octets, over a corpus of every PDU type x file-size flags x id widths; accepted-as-different is a violation.",
+         "All single flips, all pairs (whole PDU for short PDUs, sliding window otherwise) and all bursts up to 16 bits at every position after the 4 fixed octets, over a corpus of every PDU type x file-size flags x id widths; accepted-as-different is a violation. The other half - an unaltered CRC-carrying PDU is accepted as itself - is checked for every combination of the header flags x 16 id/sequence width pairs x 7 directive kinds.",
          "Error patterns start after the 4 fixed header octets as the property states.", "DESIGN.md §5 C15"),
  "C16": ("fault_enumeration", "udp", "runtime monitor on loopback: the real UdpTransport receives a long datagram then every truncation of another; returned value compared with decoding the truncated bytes alone",
          "Every truncation length of every corpus PDU following every longer corpus PDU, CRC on/off, lock-step over 127.0.0.1; the transport's result must equal PDU::decode of exactly the datagram's bytes.",
